@@ -326,6 +326,9 @@ func TestNames(t *testing.T) {
 	}
 	watchdog(r)
 	fams := gen.NameFamilies(r.Thorough())
+	// the two largest thorough families (273M and 90M names) go through the name validators and ARPA
+	// decoders in the C03-C05 checks; calling all 36 entry-point groups on them would take hours
+	fams = slices.DeleteFunc(fams, func(f gen.Family) bool { return f.Name == "v4prefix5" || f.Name == "arpalabels5" })
 	if !r.Thorough() {
 		// the 6.5M-name family of 4 IPv4 prefix labels x 28 root spellings is
 		// driven through the ARPA decoders by C04/C05 on every quick run (a panic
